@@ -78,6 +78,13 @@ def main():
                       "script": [{"op": "instantiate", "binds": {"mem": 0, "table": 0, "globals": []}}] + c05["history"](rng, 3, 12)})
     items += c03["directed"](rng, "quick")
     items += [i for i in load("c04")["directed"](rng, "quick", {}) if i["id"].startswith(("seg", "icallty", "tab_", "reent"))]        # ("seg" includes the fixed run layouts)
+    # constants of every class in function bodies and global initialisers: what the translator prints must be C, everywhere
+    c07 = load("c07")
+    cs = [("f32", x) for x in c07["float_pool"](rng, 8, 23, 4, False)] + [("f64", x) for x in c07["float_pool"](rng, 11, 52, 4, False)] + \
+         [("i32", x) for x in c07["int_pool"](rng, 32, 4)] + [("i64", x) for x in c07["int_pool"](rng, 64, 4)]
+    if tier == "quick":
+        cs = cs[::3]
+    items += c07["build_items"](cs)
     gst = {}
     for prof, cnt in (("mixed", 36 if tier == "quick" else 240), ("control", 36 if tier == "quick" else 240), ("calls", 24 if tier == "quick" else 160)):
         items += wasmgen.programs(prof, cnt, SEED, args_per_prog=4, stats=gst)
